@@ -214,6 +214,8 @@ def _run_check(check, tier, seed, out, t0):
             if case is not None and len(stats['viol']) < 400:
                 stats['viol'].append((case, v))
 
+    if hasattr(check, 'prepare'):
+        check.prepare(tier, seed)
     ctx = mp.get_context('fork')
     with ctx.Pool(NPROC, initializer=_init_worker, initargs=(check.id,)) as pool:
         pending = []
@@ -314,7 +316,7 @@ def _run_check(check, tier, seed, out, t0):
     coverage = {
         'states': stats['states'],
         'transitions': max(stats['tr'], 1) if stats['states'] else 0,
-        'traces_validated_against_impl': stats['states'] + int(extra.pop('conformance_replays', 0)),
+        'traces_validated_against_impl': stats['states'] + int(extra.get('conformance_replays', 0)),
         'evaluations': stats['states'] * getattr(check, 'evals_per_state', 1) + stats['cnt'].pop('evaluations', 0),
         'distinct_nontrivial': len(stats['nt']),
         'distinct_outcomes': len(stats['outs']),
